@@ -1,6 +1,7 @@
 package main
 
 import (
+	"encoding/json"
 	"fmt"
 	"go/token"
 	"os"
@@ -36,6 +37,7 @@ func (e *Engine) newCtx(h *Harness, prefix []int, solver *Solver, concrete *Mode
 		reached: map[string]bool{}, ufApps: map[string][]ufApp{}, injective: map[string]bool{}, hashBuf: map[*value][]*Term{},
 		cover: map[*ssa.Function]bool{},
 		trace: os.Getenv("GOSYM_TRACE") != "", trace2: os.Getenv("GOSYM_TRACE") == "2",
+		noMerge: os.Getenv("GOSYM_NOMERGE") != "",
 	}
 }
 
@@ -343,7 +345,17 @@ func (e *Engine) ConfirmInterp(h *Harness, v *Violation) (bool, string) {
 			return true, ""
 		}
 	}
-	return false, fmt.Sprintf("concrete re-execution ended with status=%s reason=%s results=%d", pr.status, firstLine(pr.reason), len(pr.results))
+	detail := ""
+	for _, ar := range pr.results {
+		if ar.Status != "trivially-held" && ar.Status != "held" {
+			detail += " " + ar.Label + "=" + ar.Status + "@" + ar.Pos
+		}
+	}
+	if os.Getenv("GOSYM_DEBUG") != "" {
+		b, _ := json.Marshal(modelJSON(v.Model))
+		os.WriteFile("/tmp/unconfirmed_"+nameSan.ReplaceAllString(v.Label, "_")+".json", b, 0644)
+	}
+	return false, fmt.Sprintf("concrete re-execution ended with status=%s reason=%s results=%d%s", pr.status, firstLine(pr.reason), len(pr.results), detail)
 }
 
 func firstLine(s string) string {
